@@ -99,9 +99,9 @@ def enumerate_deviations(fn, d, visit, word_alts=WORD_EXTREMES, max_positions=No
             t[p] = v
         res, log = tp.run(t, fn)
         runs += 1
+        visit(t, res, log)      # the result is judged first: a divergence below is usually the consequence of what it shows
         if expect is not None and log[:len(expect)] != expect:
             raise ReplayDivergence("replaying tape %r changed the request log prefix" % (t,))
-        visit(t, res, log)
         if len(devs) >= d:
             continue
         start = L
